@@ -186,6 +186,9 @@ func waitIdle(m *bitcoin_reader.NodeManager, d time.Duration) (idle bool, runnin
 }
 
 func c05Case(ctx context.Context, run *common.Run, obs *c05obs, idx int, orphan bool, slow10 bool) {
+	if run.Saturated() {
+		return
+	}
 	rng := common.Rng(run.Seed, int64(500000+idx))
 	L := 1 + rng.Intn(30)
 	conc := 1
